@@ -360,8 +360,11 @@ func (m *Machine) ActShutdown(t *rapid.T) {
 	// the store holds exactly the final reported state
 	last, _ := m.mem.Get()
 	if last == nil {
-		m.fail("C11", "shutdown returned without a final save")
-		return
+		// nothing was ever written: fine if there is nothing to hold
+		if len(s1.Jobs) > 0 {
+			m.fail("C11", "shutdown returned, %d jobs are reported, nothing was ever written to the store", len(s1.Jobs))
+		}
+		last = &store.PersistedData{}
 	}
 	inStore := map[uuid.UUID]*store.PersistedJob{}
 	for i := range last.Jobs {
